@@ -1,7 +1,20 @@
 pub mod c07;
 pub mod c08;
+pub mod c15;
 pub mod c16;
+pub mod c22;
+pub mod c23;
+pub mod c25;
+pub mod kvmodel;
 pub mod c17;
+pub mod c18;
+pub mod c20;
+pub mod c21;
+pub mod c24;
+pub mod c35;
+pub mod c37;
+pub mod embedded_util;
+pub mod simdisk;
 pub mod c19;
 pub mod snapmodel;
 pub mod c34;
@@ -11,8 +24,13 @@ pub mod simchecks;
 /// Child-process entry for crash-injection checks (`dverif __child <module> <spec-file>`).
 /// The child executes the spec and may abort() at a generated crash point; the parent judges
 /// the files left behind.
-pub fn child_dispatch(module: &str, _spec_path: &str) -> i32 {
+pub fn child_dispatch(module: &str, spec_path: &str) -> i32 {
     match module {
+        "c15" => c15::child_main(spec_path),
+        "c23" => c23::child_main(spec_path),
+        "c18" => c18::child(spec_path),
+        "c20" => c20::child(spec_path),
+        "c21" => c21::child(spec_path),
         _ => {
             eprintln!("unknown child module {module}");
             2
